@@ -37,6 +37,7 @@ M = {
    "first missed (the wchar_t instantiation was not under contract); unit digit_classes was added: is_digit_w postcondition (true exactly for ASCII 0-9 over all 32-bit code units) -> VIOLATION, replay REPRODUCED (wide text [1\u0431] accepted)"),
  'C14-add-dash-prefix': ('C14', "jsonpointer::add, array branch: the past-the-end test accepts every token that starts with '-'", "add() whose last token starts with '-' and has length >= 2 (-1, -0, --) addressing an array", None),
  'C07-half-neg-infinity': ('C07', "binary::decode_half (software path): inf/NaN returned early, skipping the sign", "CBOR half-precision -Infinity, f9 fc 00", None),
+ 'C09-try-emplace-hint-skip': ('C09', "sorted_json_object::try_emplace(hint, ...) (both overloads): the search starts at std::next(hint) when hint->key() <= name", "default (sorted) json, hinted try_emplace or merge(hint, ...) whose hint points at the member that already has the name", None),
  'C18-csv-minimal-quote-linebreak': ('C18', "csv write_string_value (quote_style minimal): quotes a field for characters of line_delimiter_ only, not for every CR/LF", "minimal quoting and a field containing a lone CR (default delimiter LF) or LF (delimiter CR)", None),
  'C01-grisu-pow2-lower-boundary': ('C01', "grisu3 normalized_boundaries, power-of-two branch: mi.f = (v.f << 2) - 2 instead of - 1", "a double that is an exact power of two at one of ~250 exponents (smallest positive: 2^64), default shortest format", None),
 }
